@@ -325,6 +325,76 @@ def onepu_curve_mismatch(ctx, rng):
                 ctx.violation("unsuitable-key-accepted:1pu-sender-curve:encrypt", f"{alg} produced a token with recipient on {rc} and sender on {sc}", {"alg": alg, "rc": rc, "sc": sc})
 
 
+def declared_restrictions_stick(ctx, rng):
+    """the use / key_ops a key declares keep restricting it: after a failed first attempt (keys whose parameters are looked at lazily, one of
+    them malformed), after the caller edited a dict the key had exported, and after the caller edited the dict the key was imported from"""
+    j = J.load()
+    raw = {"oct": gen.new_oct(256), "EC": gen.new_ec("P-256"), "OKP": gen.new_okp("Ed25519"), "RSA": gen.new_rsa(2048)}
+    sign_alg = {"oct": "HS256", "EC": "ES256", "OKP": "EdDSA", "RSA": "RS256"}
+    enc_alg = {"oct": ("A256KW", "A128GCM"), "RSA": ("RSA-OAEP", "A128GCM")}
+
+    def build(kty, how, params):
+        jwk = raw[kty]
+        if how == "jwk":
+            return j.key({**jwk, **params})
+        if kty == "oct":
+            return j.OctKey.import_key(__import__("refjose.prim", fromlist=["b64u_dec"]).b64u_dec(jwk["k"]), dict(params))
+        cls = {"EC": j.ECKey, "OKP": j.OKPKey, "RSA": j.RSAKey}[kty]
+        if how == "pem":
+            return cls.import_key(gen.to_pem(jwk), dict(params))
+        return cls.generate_key(jwk.get("crv", 2048), dict(params)) if kty != "RSA" else cls.import_key(gen.to_pem(jwk, der=True), dict(params))
+
+    def sign(key, kty):
+        return j.jws.serialize_compact({"alg": sign_alg[kty]}, b"c06", key, algorithms=[sign_alg[kty]])
+
+    def wrap(key, kty):
+        a, e = enc_alg[kty]
+        return j.jwe.encrypt_compact({"alg": a, "enc": e}, b"c06", key, algorithms=[a, e])
+
+    for kty in ("oct", "EC", "OKP", "RSA"):
+        for restr, op, f in (({"use": "enc"}, "sign", sign), ({"key_ops": ["verify"]}, "sign", sign), ({"use": "sig"}, "encrypt", wrap), ({"key_ops": ["sign"]}, "encrypt", wrap)):
+            if op == "encrypt" and kty not in enc_alg:
+                continue
+            for how in ("lazy", "pem", "jwk"):
+                # (a) retries, with and without a malformed extra member
+                for junk in ({}, {"kid": 7}, {"x5u": "not a url"}, {"alg": 5}, {"x5c": "nolist"}):
+                    ctx.ev()
+                    k = call(build, kty, how, {**restr, **junk})
+                    if not k.ok:
+                        ctx.count("restricted_key_refused_at_import")
+                        continue
+                    outs = [call(f, k.value, kty) for _ in range(3)]
+                    ctx.count("calls", 3)
+                    ctx.count("retry_cases")
+                    ctx.nontrivial(("retry", kty, op, how, tuple(restr), tuple(junk)))
+                    ctx.cell(op, "retry", how, "all-failed" if not any(o.ok for o in outs) else "SUCCEEDED")
+                    if any(o.ok for o in outs):
+                        which = [i for i, o in enumerate(outs) if o.ok]
+                        ctx.violation(f"unsuitable-key-accepted:{'use' if 'use' in restr else 'key_ops'}:{op}@attempt-{which[0] + 1}",
+                                      f"{op} with a {kty} key ({how}) declaring {restr} (other parameters {junk}) succeeded at attempt {which[0] + 1} of 3: "
+                                      f"{[('ok' if o.ok else o.etype) for o in outs]}", {"kty": kty, "how": how, "declared": restr, "other": junk, "op": op})
+                # (b) the caller edits what the key exported
+                ctx.ev()
+                k = call(build, kty, how, dict(restr))
+                if not k.ok:
+                    continue
+                key = k.value
+                exports = [call(key.as_dict), call(key.as_dict, private=True) if key.is_private else call(key.as_dict), call(lambda: j.KeySet([key]).as_dict(private=True)["keys"][0])]
+                for e in exports:
+                    if e.ok and isinstance(e.value, dict):
+                        e.value.pop("use", None)
+                        e.value.pop("key_ops", None)
+                        e.value["use"] = "sig" if op == "sign" else "enc"
+                o = call(f, key, kty)
+                ctx.count("calls")
+                ctx.count("export_edit_cases")
+                ctx.nontrivial(("export-edit", kty, op, how, tuple(restr)))
+                if o.ok:
+                    ctx.violation(f"unsuitable-key-accepted:{'use' if 'use' in restr else 'key_ops'}:{op}@after-export-edited",
+                                  f"{op} with a {kty} key ({how}) declaring {restr} succeeded after the caller had edited the dicts the key exported",
+                                  {"kty": kty, "how": how, "declared": restr, "op": op})
+
+
 def onepu_sender_key(ctx, rng):
     """ECDH-1PU: the sender's static key takes part in a JWE operation, so its declared use must be enc (and producing needs its private part)"""
     j = J.load()
@@ -450,6 +520,8 @@ def run_shard(ctx):
         onepu_curve_mismatch(ctx, rng)
     if sh == 1:
         onepu_sender_key(ctx, rng)
+    if sh == 2:
+        declared_restrictions_stick(ctx, rng)
     work = []
     for alg in JWS_NAMES:
         for kind in KINDS:
@@ -498,3 +570,4 @@ def replay(ctx, case):
         confusion_and_warnings(ctx, ctx.rng)
         onepu_curve_mismatch(ctx, ctx.rng)
         onepu_sender_key(ctx, ctx.rng)
+        declared_restrictions_stick(ctx, ctx.rng)
